@@ -11,7 +11,7 @@ for d in seeded/*/; do
   [ -f $d/patch.diff ] || continue
   base=${name%%-*}; id=${base%%r[0-9]*}
   extra=$(python3 -c "import json;m=json.load(open('$d/meta.json'));print(' '.join(c['check'] for c in m.get('checks',[]) if c['check']!='$id'))" 2>/dev/null)
-  if ! (git -C /repo apply --check $d/patch.diff 2>/dev/null || git -C /repo apply -C1 --check $d/patch.diff 2>/dev/null); then
+  if ! (git -C /repo apply --check /verif/$d/patch.diff 2>/dev/null || git -C /repo apply -C1 --check /verif/$d/patch.diff 2>/dev/null); then
     echo "| $name | $id | patch does not apply to $head (needs porting) | |" >> $out
     echo "$name: does not apply"
     continue
